@@ -245,6 +245,7 @@ func newInterp(ld *Loaded, cfg *HarnessCfg, thorough bool) (*Interp, error) {
 func (in *Interp) runInit() {
 	in.lenient = true
 	in.onceDone = map[string]bool{}
+	in.atomicVals = map[string]Value{}
 	in.reached = map[string]bool{}
 	defer func() { in.lenient = false }()
 	initFn := in.hpkg.Func("init")
@@ -333,6 +334,7 @@ func (w *worker) runPath(res *HarnessResult) {
 	in.depth = 0
 	in.noFork = false
 	in.onceDone = map[string]bool{}
+	in.atomicVals = map[string]Value{}
 	in.reached = map[string]bool{}
 	in.events = in.events[:0]
 	in.cl = &cloner{objs: map[*Object]*Object{}, maps: map[*MapObj]*MapObj{}, chans: map[*ChanObj]*ChanObj{}, in: in}
